@@ -60,6 +60,7 @@ Proof.
     pose proof (handle_outgoing_packet_inv (st l) r I Hok) as H.
     destruct (handle_outgoing_packet (st l) r) as [[s' [pk|]] | [s' e] | t]; cbn [post] in H; try exact H; try contradiction.
     unfold fail_with, fail_with_gen. destruct (loop_clean_inv (with_st l1 s') H) as [l' [Hc [I' _]]]. rewrite Hc. exact I'.
+  - exact I.
   - destruct (arm_ready l && negb _); [|exact Logic.I].
     pose proof (read_batch_inv pkts (st l) [] I) as H.
     destruct (read_batch (st l) pkts []) as [[s' rp] | [s' e] | t]; try exact H; try contradiction.
@@ -191,3 +192,11 @@ Proof. vm_compute. reflexivity. Qed.
 Theorem readb_take_keeps_all inbox :
   fst (readb_take inbox) ++ snd (readb_take inbox) = inbox /\ (length (fst (readb_take inbox)) <= 9)%nat.
 Proof. unfold readb_take. cbn [fst snd]. split; [apply firstn_skipn|apply firstn_le_length]. Qed.
+
+(** pending_throttle: next_request sleeps BEFORE it pops the request, so a request arm that select()
+    cancels during the throttle wait (a broker packet or the keep-alive timer came first) has taken
+    nothing: pending, the channel and the state are exactly what they were, and the retransmission
+    is attempted again by the next poll *)
+Theorem throttle_cancel_safe l : lstep l TakeCancelled = Stepped l /\
+  forall l', lstep l TakeCancelled = Stepped l' -> pending l' = pending l /\ chan l' = chan l /\ st l' = st l.
+Proof. split; [reflexivity|]. intros l' H. inversion H. subst. auto. Qed.
